@@ -1,7 +1,6 @@
 package c09
 
 import (
-	"bytes"
 	"encoding/binary"
 	"fmt"
 	"math/big"
@@ -66,6 +65,9 @@ func (c *tlogCase) ask(target int, nep11 bool, acc util.Uint160, ts uint64) [][]
 	var want []refmap.KV
 	shown := map[string]any{"query": fmt.Sprintf("dao.Seek%sTransferLog(acc=%x, newestTimestamp=%d) on L%d", map[bool]string{false: "NEP17", true: "NEP11"}[nep11], acc.BytesBE()[:2], ts, target)}
 	for i, rp := range c.reps {
+		if rp.dead {
+			continue
+		}
 		type tr struct{ v, p int }
 		var trs []tr
 		var err error
@@ -103,7 +105,7 @@ func (c *tlogCase) ask(target int, nep11 bool, acc util.Uint160, ts uint64) [][]
 			got = append(got, refmap.KV{K: c.keyOf[v], V: []byte(fmt.Sprint("b", v))})
 			j += n
 		}
-		answers[i] = canon(got, cmpBoth)
+		answers[i] = append([]string{}, canon(got, cmpBoth)...)
 		shown[rp.kind] = answers[i]
 		if garbled {
 			fails[rp.kind] = "dao-transfer-log:batch-content-garbled"
@@ -199,7 +201,7 @@ func (c *tlogCase) step() {
 		c.sizeOf[c.version] = n
 		c.log = append(c.log, fmt.Sprintf("PutTokenTransferLog L%d nep11=%v acc=%x ts=%d index=%d: batch version %d with %d transfers (key %x)", li, nep11, acc.BytesBE()[:2], ts, idx, c.version, n, key))
 		c.kinds = append(c.kinds, "putlog")
-		for _, rp := range c.reps {
+		for _, rp := range c.live() {
 			lg := new(state.TokenTransferLog)
 			for p := 0; p < n; p++ {
 				t17 := state.NEP17Transfer{Asset: 1, Counterparty: util.Uint160{9}, Amount: big.NewInt(int64(p + 1)), Block: uint32(c.version), Timestamp: ts, Tx: txOf(c.version, p)}
@@ -219,7 +221,7 @@ func (c *tlogCase) step() {
 	case x < 7:
 		c.log = append(c.log, fmt.Sprintf("Delete L%d key %x", li, key))
 		c.kinds = append(c.kinds, "del")
-		for _, rp := range c.reps {
+		for _, rp := range c.live() {
 			rp.stores[li].Delete(key)
 		}
 		c.m.Put(li, string(key), nil)
@@ -250,7 +252,8 @@ func (c *tlogCase) persistTlog(li int, mode string) {
 	n := len(c.m.Layers[li])
 	c.log = append(c.log, fmt.Sprintf("%s L%d (%d entries)", mode, li, n))
 	c.kinds = append(c.kinds, mode)
-	for _, rp := range c.reps {
+	pre := c.dumpBases(li == 0)
+	for _, rp := range c.live() {
 		var err error
 		if mode == "Persist" {
 			_, err = rp.stores[li].Persist()
@@ -265,14 +268,18 @@ func (c *tlogCase) persistTlog(li int, mode string) {
 		}
 	}
 	c.m.Flush(li)
+	c.audit(li == 0, "persist", pre)
 	if n > 0 {
 		c.flushed = true
 		c.run.Obs("flushes_of_nonempty_layers", 1)
 	}
 	for i, q := range qs {
 		after := c.ask(q.target, q.nep11, q.acc, q.ts)
-		c.run.Obs("flush_invariance_pairs", int64(len(c.reps)))
 		for j := range after {
+			if before[i][j] == nil || after[j] == nil {
+				continue
+			}
+			c.run.Obs("flush_invariance_pairs", 1)
 			if !eqStrs(before[i][j], after[j]) {
 				// every transfer-log query is a backward seek with a start; the
 				// per-answer classification above has named the shape already.
@@ -291,7 +298,7 @@ func runTlogCase(run *ev.Run, idx int, tmp string) {
 		sh.priv = true
 	}
 	sh.h = [2]int{5, 6}
-	c := &tlogCase{seqCase: &seqCase{id: id, sh: sh, r: r, m: refmap.New(sh.depth), run: run}, keyOf: map[int]string{}, sizeOf: map[int]int{}}
+	c := &tlogCase{seqCase: &seqCase{id: id, sh: sh, r: r, m: refmap.New(sh.depth), run: run, cover: []byte{byte(storage.STNEP11Transfers), byte(storage.STNEP17Transfers)}}, keyOf: map[int]string{}, sizeOf: map[int]int{}}
 	c.accs = []util.Uint160{{1, 2, 3}, {0xff, 0xff, 0xff, 0xff, 0xff, 0xff, 0xff, 0xff, 0xff, 0xff, 0xff, 0xff, 0xff, 0xff, 0xff, 0xff, 0xff, 0xff, 0xff, 0xff}}
 	for len(c.times) < 4 {
 		t := tlogTimes[r.Intn(len(tlogTimes))]
@@ -344,5 +351,4 @@ func runTlogCase(run *ev.Run, idx int, tmp string) {
 	if idx < 1 {
 		run.Sample(map[string]any{"case": id, "ops": c.log})
 	}
-	_ = bytes.Equal
 }
